@@ -352,3 +352,12 @@ add("geometry-step-clamp-mixes-frames", F, ["C13"], "dfols/controller.py", "np.m
 add("delta-over-tau-uncapped", F, ["C18"], "dfols/solver.py", "control.delta = min(min(params(\"tr_radius.gamma_dec\") * control.delta, dnorm) / tau, 1e10)  # tau can be 0", "control.delta = min(params(\"tr_radius.gamma_dec\") * control.delta, dnorm) / tau", "C18-3")
 add("scaling-before-shape-rows", F, ["C07"], "dfols/solver.py", "    scaling_changes = None\n    if exit_info is None and scaling_within_bounds:", "    scaling_changes = None\n    if scaling_within_bounds:", "C07-2b")
 add("sfista-without-the-box", F, ["C06"], "dfols/controller.py", "                d, gnew, crvmin = ctrsbox_sfista(self.model.xopt(abs_coordinates=True), gopt, H, [proj], self.delta,", "                d, gnew, crvmin = ctrsbox_sfista(self.model.xopt(abs_coordinates=True), gopt, H, [], self.delta,", "C06-6")
+
+# ---- C16-6: fitted components are rows of one solution of the interpolation system
+add("lagrange-constant-snapped-to-kronecker-delta", F, ["C16"], "dfols/model.py", "            c = soln[0]\n", "            c = 1.0 if k == self.kopt else 0.0\n", "C16-6")
+add("lagrange-constants-zeros-with-one", F, ["C16"], "dfols/model.py", "            cs = soln[0, :]\n", "            cs = np.zeros((self.npt(),))\n            cs[self.kopt] = 1.0\n", "C16-6")
+add("model-const-from-stored-residual", F, ["C16"], "dfols/model.py", "        self.model_const = dg[0,:] - np.dot(self.model_jac, xopt)  # shift base to xbase",
+    "        self.model_const = self.fval_v[self.kopt, :] - np.dot(self.model_jac, xopt)  # shift base to xbase", "C16-6")
+add("poisedness-gradient-includes-constant-row", F, ["C16"], "dfols/model.py", "            c = soln[0,k]; g = soln[1:, k]", "            c = soln[0,k]; g = soln[0:, k][1:] if False else soln[0:, k]", "C16-6")
+add("s-lagrange-constants-filled-from-solution", S, ["C16"], "dfols/model.py", "            cs = soln[0, :]\n", "            cs = np.zeros((self.npt(),))\n            cs[:] = soln[0, :]\n")
+add("s-lagrange-solution-renamed-and-copied", S, ["C16"], "dfols/model.py", "            c = soln[0]\n            g = soln[1:]\n            return c, g", "            const = float(soln[0])\n            grad = soln[1:].copy()\n            return const, grad")
